@@ -7,12 +7,14 @@ Read off the Go code (`Entry.add`, `Entry.merge`, `Entry.Augment`, `ToEntry` of 
 
  * `duplicate-key`  (Go: `e.add(key, value)`, message `Source(e.Node): duplicate key from …`):
    the PARENT statement, i.e. the statement under which a data definition substatement could
-   not be added because a child of that name already exists;
+   not be added because a child of that name already exists (a substatement `c` whose keyword is
+   one `ToEntry` converts below a statement with the parent's keyword: `fieldOrder`);
  * `duplicate-node` (Go: `e.merge(…, oe)`, message `Source(oe.Node): duplicate node …`): the statement
    whose children were being merged in: the `grouping` a `uses` refers to, the `augment`
    statement, or the `module` / `submodule` statement of an included submodule (for a registry
    that holds something else than modules: its top statement);
- * `augment-not-found`: the `augment` statement whose target was not found (or cannot take children);
+ * `augment-not-found`: the `augment` statement (a direct substatement of a module / submodule
+   statement) whose target was not found (or cannot take children);
  * `deviate-unknown-kind` (positioned form): the `deviation` statement that holds a `deviate`
    substatement whose argument is not one of not-supported / add / replace / delete;
  * the positioned errors of the deviation stage (`devStageClasses`): the top statement of the
@@ -37,6 +39,11 @@ def TopOf (reg : Registry) (s : Stmt) : Prop := ∃ m ∈ reg.mods, s = m.stmt
 /-- The keyword is `module` or `submodule`. -/
 def IsModKw (kw : String) : Prop := kw = "module" ∨ kw = "submodule"
 
+/-- `s` is an `augment` statement standing directly below a `module` / `submodule` statement of a
+loaded module (the only augments `ToEntry` collects for `Entry.Augment`). -/
+def ModAugment (reg : Registry) (s : Stmt) : Prop :=
+  s.kw = "augment" ∧ ∃ p, StmtOf reg p ∧ IsModKw p.kw ∧ s ∈ p.subs
+
 /-- The kind of `deviate` statement (its argument) that an error class of the deviation stage comes
 from: a second default / an existing default under `add`; no parent / already removed under
 `not-supported`; the default errors of `delete`. -/
@@ -47,9 +54,9 @@ def devKindOf (cls : String) : String :=
 
 /-- Which statement the error classes of the resolver's own stages name. -/
 def Who (reg : Registry) (cls : String) (s : Stmt) : Prop :=
-  (cls = "duplicate-key" → ∃ c ∈ s.subs, c.kw ∈ keyKws) ∧
-  (cls = "duplicate-node" → s.kw = "grouping" ∨ s.kw = "augment" ∨ IsModKw s.kw ∨ TopOf reg s) ∧
-  (cls = "augment-not-found" → s.kw = "augment") ∧
+  (cls = "duplicate-key" → ∃ c ∈ s.subs, c.kw ∈ keyKws ∧ c.kw ∈ fieldOrder s.kw) ∧
+  (cls = "duplicate-node" → s.kw = "grouping" ∨ ModAugment reg s ∨ IsModKw s.kw ∨ TopOf reg s) ∧
+  (cls = "augment-not-found" → ModAugment reg s) ∧
   (cls = "deviate-unknown-kind" → s.kw = "deviation" ∧ ∃ dv ∈ s.subs, dv.kw = "deviate" ∧ deviateKinds.contains dv.arg = false) ∧
   (cls ∈ devStageClasses → TopOf reg s ∧
     ∃ dv ∈ s.subs, dv.kw = "deviation" ∧ ∃ ds ∈ dv.subs, ds.kw = "deviate" ∧ ds.arg = devKindOf cls)
@@ -68,5 +75,19 @@ theorem who_free (reg : Registry) {cls : String} (s : Stmt) (h : cls ∉ whoClas
   obtain ⟨⟨h1, h2, h3, h4⟩, h5⟩ := h
   exact ⟨fun e => absurd e h1, fun e => absurd e h2, fun e => absurd e h3, fun e => absurd e h4,
     fun e => absurd e h5⟩
+
+/-- `Who` with one more condition `P` on the statement an `augment-not-found` error names (used with
+"is the source statement of an augment that the augment loop and all retry rounds left pending"). -/
+def WhoP (P : Stmt → Prop) (reg : Registry) (cls : String) (s : Stmt) : Prop :=
+  Who reg cls s ∧ (cls = "augment-not-found" → P s)
+
+def NamesWP (P : Stmt → Prop) (reg : Registry) (cls : String) (s : Stmt) : Prop := Names cls s ∧ WhoP P reg cls s
+
+theorem who_freeP (P : Stmt → Prop) (reg : Registry) {cls : String} (s : Stmt) (h : cls ∉ whoClasses) :
+    WhoP P reg cls s :=
+  ⟨who_free reg s h, fun e => absurd (e ▸ (by decide : "augment-not-found" ∈ whoClasses)) h⟩
+
+theorem NamesWP.toW {P : Stmt → Prop} {reg : Registry} {cls : String} {s : Stmt} (h : NamesWP P reg cls s) :
+    NamesW reg cls s := ⟨h.1, h.2.1⟩
 
 end Goyang.Spec.Positions
